@@ -73,6 +73,7 @@ type Frame struct {
 	callspecs  map[string]*Contract
 	loopPolicy map[*ssa.BasicBlock]map[string]*loopKeyPolicy
 	parent     *Frame
+	loopHeads  map[int]*State // state at the head of loop K in the current iteration (prev(K, e))
 }
 
 type retPoint struct {
@@ -412,6 +413,9 @@ func (w *World) execInstr(fr *Frame, st *State, ins ssa.Instruction) {
 			if _, isSlice := ia.X.Type().Underlying().(*types.Slice); isSlice {
 				w.atAsserts(fr, st, "elemstore", ins, map[string]*Val{"value": v, "index": w.val(fr, st, ia.Index), "slice": w.val(fr, st, ia.X)})
 			}
+		}
+		if fa, ok := ins.Addr.(*ssa.FieldAddr); ok {
+			w.fieldStoreAsserts(fr, st, fa, v)
 		}
 		if l := w.locOf(addr, ins.Addr.Type()); l != nil {
 			switch l.kind {
@@ -853,6 +857,45 @@ func (w *World) atAsserts(fr *Frame, st *State, kind string, ins ssa.Instruction
 			o := w.oblige("assert", name, st.cond, w.skolemGoal(env, as.Clause.Expr), as.Clause.Star, props)
 			o.Pos = as.Clause.Line
 		}
+	}
+}
+
+// fieldStoreAsserts emits the "at fieldstore T.f assert" obligations of the
+// function under verification for a store to that field, wherever the store
+// executes (the body itself or a helper inlined into it).
+func (w *World) fieldStoreAsserts(fr *Frame, st *State, fa *ssa.FieldAddr, v *Val) {
+	top := fr
+	for top.parent != nil {
+		top = top.parent
+	}
+	if !top.top || top.contract == nil || len(top.contract.Asserts) == 0 {
+		return
+	}
+	pt := deref(fa.X.Type())
+	stt, ok := pt.Underlying().(*types.Struct)
+	if !ok {
+		return
+	}
+	tn := pt.String()
+	if n, ok := pt.(*types.Named); ok {
+		tn = n.Obj().Name()
+	}
+	name := tn + "." + stt.Field(fa.Field).Name()
+	for _, as := range top.contract.Asserts {
+		if as.Kind != "fieldstore" || as.Field != name {
+			continue
+		}
+		w.firedAsserts[as] = true
+		env := w.contractEnv(top, st, top.entry)
+		env.vars["object"] = w.val(fr, st, fa.X)
+		env.vars["value"] = v
+		props := as.Clause.Props
+		if len(props) == 0 {
+			props = top.contract.Props
+		}
+		w.callOrd["at*:fieldstore"+name+as.Clause.Label]++
+		o := w.oblige("assert", fmt.Sprintf("at.fieldstore.%s.%s.%d", name, as.Clause.Label, w.callOrd["at*:fieldstore"+name+as.Clause.Label]), st.cond, w.skolemGoal(env, as.Clause.Expr), as.Clause.Star, props)
+		o.Pos = as.Clause.Line
 	}
 }
 
